@@ -1,5 +1,5 @@
 SPECIFICATION Spec
-CONSTANTS KA = {"none", "f1", "f3", "sub"}
+CONSTANTS KA = {"none", "f3", "sub"}
           KB = {"none", "f0", "f12", "f3"}
           KC = {"raw1", "frep", "f12"}
 INVARIANTS TypeOK DagWellFormed AllBlocksVerify OnlyFromDag DupsOnlyIfRequested RootIsTerminal Sufficient RawExact ModelMinimal
